@@ -27,6 +27,7 @@ ASSUMPTIONS = [
     "non-exact solvers are asserted two-sidedly (1e-6) only when the sketch captures the range or the spectrum decays geometrically",
 ]
 CLASSES = ("EOF", "ComplexEOF", "HilbertEOF", "ExtendedEOF")
+SPECS = gen.SPECTRA + ("illcond",)  # illcond: log-spaced singular values spanning 1e5..1e9
 SOLVERS = ("full", "auto", "randomized")
 
 
@@ -44,9 +45,9 @@ def required(tier):
 
 def _draw(rng, cls=None, spec=None, solver=None, shape=None):
     cls = cls or rng.choice(CLASSES, p=[0.4, 0.25, 0.15, 0.2])
-    spec = spec or str(rng.choice(gen.SPECTRA))
+    spec = spec or str(rng.choice(SPECS))
     solver = solver or str(rng.choice(SOLVERS, p=[0.5, 0.3, 0.2]))
-    shape = shape or str(rng.choice(["tall", "wide", "p1", "big"], p=[0.5, 0.3, 0.08, 0.12]))
+    shape = shape or str(rng.choice(["tall", "wide", "p1", "big", "vtall"], p=[0.4, 0.28, 0.08, 0.12, 0.12]))
     if shape == "tall":
         n = int(rng.integers(6, 41))
         p = int(rng.integers(2, max(3, min(n - 1, 24)) + 1))
@@ -56,6 +57,9 @@ def _draw(rng, cls=None, spec=None, solver=None, shape=None):
     elif shape == "p1":
         n = int(rng.integers(4, 30))
         p = 1
+    elif shape == "vtall":  # n >= 10 p: the regime where a covariance-eigh shortcut would be tempting
+        p = int(rng.integers(2, 9))
+        n = int(rng.integers(10 * p, 14 * p + 10))
     else:  # big: the range finder's sketch (k+10) is smaller than the rank
         n = int(rng.integers(45, 70))
         p = int(rng.integers(28, 44))
@@ -97,15 +101,19 @@ def cases(tier, seed):
     out = []
     i = 0
     for cls in CLASSES:
-        for spec in gen.SPECTRA:
+        for spec in SPECS:
             for solver in SOLVERS:
-                for shape in ("tall", "wide", "p1"):
+                for shape in ("tall", "wide", "p1", "vtall"):
                     rng = gen.rng_for(1001, i)
                     out.append(_draw(rng, cls, spec, solver, shape))
                     i += 1
     nrand = 650 if tier == "quick" else 24000
     for j in range(nrand):
         out.append(_draw(gen.rng_for(seed, 1, j)))
+    if tier == "thorough":
+        # the repository's own tests as an additional workload under the universally valid post-conditions
+        out.append(dict(kind="suite", paths=["tests/linalg", "tests/models/single/test_eof.py", "tests/models/single/test_eeof.py", "tests/models/single/test_eof_rotator.py"]))
+        out.append(dict(kind="suite", paths=["tests/preprocessing/test_pca.py", "tests/preprocessing/test_whitener.py", "tests/models/single/test_opa.py", "tests/models/single/test_pop.py"]))
     return out
 
 
@@ -121,7 +129,10 @@ def build(case):
     r = max(1, int(np.ceil(rmax * (0.4 + 0.6 * rng.random()))))
     if case["shape"] == "big":
         r = rmax
-    s = gen.spectrum(case["spec"], r, rng)
+    if case["spec"] == "illcond":
+        s = np.logspace(0, -float(rng.uniform(5, 9)), r) if r > 1 else np.ones(1)
+    else:
+        s = gen.spectrum(case["spec"], r, rng)
     M, _, _ = gen.low_rank(n, p, s, rng, cplx=cplx, perp_ones=True)
     scale = 10.0 ** case["scale_exp"]
     off = rng.standard_normal(p) * 2.0
@@ -181,6 +192,12 @@ def reference_matrix(case, b):
 def run_case(case, obs):
     import xeofs as xe
 
+    if case.get("kind") == "suite":
+        from ..suite import run_suite
+
+        obs.cell("workload:repo_test_suite")
+        run_suite(obs, case["paths"])
+        return
     cls = case["cls"]
     obs.tag(cls=cls, solver=case["solver"], cplx=case["cplx"])
     if cls == "ExtendedEOF":
@@ -233,18 +250,35 @@ def run_case(case, obs):
         obs.cell("backend:" + be)
     if fpe.events:
         obs.note("fp_events", fpe.events)
-    # the *last* Decomposer backend is the one that produced the model's modes (EEOF's PCA runs first)
-    last = [e for e in events if e.get("kind") == "backend" and e.get("where") == "Decomposer"][-1]["backend"]
-    exact = last == "svd"
+    # chain of Decomposer back-ends (ExtendedEOF's PCA pre-step runs first, the model's own SVD last)
+    chain = [e["backend"] for e in events if e.get("kind") == "backend" and e.get("where") == "Decomposer"]
+    last = chain[-1]
+    exact = all(b == "svd" for b in chain)
     obs.tag(backend=last, scale_small=bool(case["scale_exp"] <= -3), scale_exp=case["scale_exp"])
-    gapped = case["spec"] in ("geometric", "gapped_tail", "rankdef")
-    captures = (k + 10) >= b["r"] * (case.get("embedding", 1) if cls == "ExtendedEOF" else 1)
+    if case["solver"] == "full":
+        obs.check(
+            "full_solver_uses_exact_backend",
+            exact,
+            f"solver='full' but the back-end chain was {chain}",
+            tags={"symptom": "full_solver_not_exact", "inexact_step": "pca_prestep" if (len(chain) > 1 and chain[0] != "svd") else "model"},
+        )
+    gapped = case["spec"] in ("geometric", "gapped_tail", "rankdef", "illcond")
+    emb = case.get("embedding", 1) if cls == "ExtendedEOF" else 1
+    # does every randomised step see a sketch (modes + 10 oversamples) that spans the range, or a decaying spectrum?
+    ok_final = (k + 10) >= b["r"] * emb or gapped or last == "svd"
+    ok_pca = True
+    if len(chain) > 1 and chain[0] != "svd":
+        ok_pca = (case.get("n_pca", 0) + 10) >= b["r"] or gapped
+    # tolerance class of the matrix that gets decomposed (only ExtendedEOF's PCA pre-step can make it inexact)
+    pre_tol = 1e-9
+    if len(chain) > 1 and chain[0] != "svd":
+        pre_tol = 1e-6 if ok_pca else None
     if exact:
         tol = 1e-9
-    elif last == "randomized_svd" and (captures or gapped):
+    elif ok_final and ok_pca and "svds" not in chain:
         tol = 1e-6
-    elif last == "svds" and (gapped or b["r"] <= k):
-        tol = 1e-6
+    elif ok_final and ok_pca and (gapped or b["r"] <= k):
+        tol = 1e-5  # scipy svds(lobpcg): accuracy of the iterative method
     else:
         tol = None  # only one-sided / structural assertions
     obs.nontrivial = bool(np.linalg.matrix_rank(Mref) >= 2 or k > 1)
@@ -279,11 +313,21 @@ def run_case(case, obs):
     Gref = Mref @ Mref.conj().T
     if Gobs is None:
         obs.check("input_data_rows", False, f"decomposed matrix has {A.shape[0]} rows, reference {n2}")
-    else:
-        obs.close("input_gram", Gobs, Gref, 1e-9, scale=np.abs(Gref).max(), tags={"symptom": "decomposed_matrix_differs"})
+    elif pre_tol is not None:
+        obs.close("input_gram", Gobs, Gref, pre_tol, scale=np.abs(Gref).max(), tags={"symptom": "decomposed_matrix_differs"})
+    if pre_tol is None:
+        # the randomised PCA pre-step did not have to find the oracle's subspace: nothing about the oracle's
+        # matrix can be asserted; keep the assertions that hold for the model's own decomposition
+        obs.cell("tol:structural_only")
+        obs.close("components_orthonormal", V.conj().T @ V, np.eye(k), 1e-6, scale=1.0)
+        obs.le("sv_descending", sv[1:], sv[:-1], slack=1e-9 * max(sv[0], 1e-300))
+        obs.close("expvar_equals_sv2_over_nm1", ev, sv**2 / (n2 - 1), 1e-10, scale=max(ev[0], np.finfo(float).tiny))
+        G = S.conj().T @ S
+        obs.close("scores_gram_diag_sv2", G, np.diag(sv**2), 1e-6, scale=max(sv[0] ** 2, np.finfo(float).tiny))
+        return
 
     I = np.eye(k)
-    obs.close("components_orthonormal", V.conj().T @ V, I, 1e-8 if tol else 1e-6, scale=1.0)
+    obs.close("components_orthonormal", V.conj().T @ V, I, 1e-8 if (tol and tol < 1e-5) else 1e-6, scale=1.0)
     obs.le("sv_descending", sv[1:], sv[:-1], slack=1e-9 * max(sv[0], 1e-300))
     obs.le("sv_nonneg", -sv, np.zeros_like(sv), slack=0)
     obs.close("expvar_equals_sv2_over_nm1", ev, sv**2 / (n2 - 1), 1e-10, scale=max(ev[0], np.finfo(float).tiny))
@@ -295,6 +339,16 @@ def run_case(case, obs):
     opt2 = float(lam[k:].sum() * (n2 - 1))
     tot2 = max(tot * (n2 - 1), np.finfo(float).tiny)
     obs.check("recon_not_below_optimum", err2 >= opt2 - 1e-8 * tot2, f"{err2} < {opt2}")
+    if exact:
+        # singular values to LAPACK accuracy: an SVD is backward stable (abs. error ~ eps*sigma_1 per value),
+        # which a shortcut through the squared (covariance) problem is not
+        sref = np.linalg.svd(Mref, compute_uv=False)
+        sref = np.concatenate([sref, np.zeros(max(0, k - sref.size))])[:k]
+        obs.close("sv_vs_svd_oracle", sv, sref, 1e-12, scale=max(sref[0], np.finfo(float).tiny), tags={"symptom": "sv_inexact"})
+        big = sref > 1e-6 * sref[0]
+        if big.any():
+            Un = S[:, big] / sv[big]
+            obs.close("normalized_scores_orthonormal", Un.conj().T @ Un, np.eye(int(big.sum())), 1e-8, scale=1.0, tags={"symptom": "scores_not_orthonormal"})
     if tol is not None:
         obs.close("expvar_vs_eigs", ev, lam[:k], tol, scale=lam1, tags={"symptom": "expvar_ne_eigs"})
         obs.close("scores_equal_MV", S, Mref @ V, max(tol, 1e-9), scale=np.sqrt(lam1 * (n2 - 1)), tags={"symptom": "scores_ne_MV"})
